@@ -335,6 +335,7 @@ def _choice(rng, items, p=None):
 
 
 FORCES = (None, 'restarts', None, 'tiny', None, 'noise', None, 'zero_at', None, 'restarts', None, 'slow')
+FORCES_DETERM = (None, 'restarts', 'trinc', 'tiny', None, 'trinc', None, 'zero_at', None, 'restarts', None, 'slow')
 
 
 def gen_problem(rng, profile='general', force=None):
@@ -361,7 +362,7 @@ def gen_problem(rng, profile='general', force=None):
     if F == 'trinc' and P == 'determ':
         n = int(rng.integers(2, 4))
         x0 = x0[:n].copy() if len(x0) >= n else xscale * rng.standard_normal(n)
-        gen = _choice(rng, ['affine', 'affine', 'quad', 'flat', 'nonsmooth', 'expsin'])
+        gen = _choice(rng, ['expsin', 'expsin', 'flat', 'flat', 'quad', 'nonsmooth', 'affine', 'rosen'])
     if use_proj and n > 3:
         n = int(rng.integers(1, 4))
         x0 = x0[:n].copy()
@@ -727,7 +728,8 @@ def run_generic(task, judge, capture_log=True, max_viol_per_sig=3):
     per_sig = {}
     cpu0 = time.process_time()
     for j in range(int(task['k'])):
-        force = FORCES[(int(task['i']) * 5 + j) % len(FORCES)]
+        fl = FORCES_DETERM if task['profile'] == 'determ' else FORCES
+        force = fl[(int(task['i']) * 5 + j) % len(fl)]
         prob = gen_problem(rng, task['profile'], force)
         rec = run_solve(prob, capture_log=capture_log)
         res = judge(rec)
